@@ -718,3 +718,43 @@ def reloadarb(seed):
 
 
 PROFILES["reloadarb"] = reloadarb
+
+
+def hooksfile(seed):
+    """hooks given in a configuration FILE (dotted names; parsed by config.py into per-watcher dicts), on some of the
+    watchers only: each watcher is gated by its own hooks, also after a reloadconfig"""
+    import random
+    rng = random.Random(seed)
+    names = ["a", "b", "c"]
+    ws = []
+    for n in names[:rng.choice([2, 3])]:
+        w = {"name": n, "np": rng.choice([1, 2]), "G": 0.1, "W": 0, "priority": rng.choice([0, 1]), "ver": 1}
+        if rng.random() < 0.5:
+            hs = {}
+            for h in rng.sample(["before_start", "after_start", "before_spawn", "after_spawn", "before_stop", "before_signal"],
+                                rng.choice([1, 2])):
+                hs[h] = (rng.choice(["true", "false", "false", "raise"]), rng.random() < 0.3)
+            w["hooks"] = hs
+        ws.append(w)
+    if not any(w.get("hooks") for w in ws):
+        ws[0]["hooks"] = {"before_start": ("false", False)}
+    sc = {"seed": seed, "file_mode": True, "watchers": [dict(w) for w in ws], "check_delay": 0.5, "warmup_delay": 0,
+          "stubborn": [], "obeys": [True], "instant_death": False, "script": [{"op": "boot"}, {"op": "tick", "n": rng.randint(2, 6)}]}
+    s = sc["script"]
+    for _ in range(rng.randint(2, 6)):
+        r = rng.random()
+        n = rng.choice([w["name"] for w in ws])
+        if r < 0.5:
+            s.append({"op": "req", "cmd": rng.choice(["start", "stop", "restart", "start"]), "props": {"name": n, "waiting": rng.random() < 0.5}})
+        elif r < 0.7:
+            w = rng.choice(ws)
+            w["ver"] += 1
+            s.append({"op": "reloadcfg", "watchers": [dict(x) for x in ws], "waiting": True})
+        else:
+            s.append({"op": "tick", "n": rng.randint(1, 5)})
+    s.append({"op": "tick", "n": 8})
+    s.append({"op": "end", "xprobe": False, "passes": 1})
+    return sc
+
+
+PROFILES["hooksfile"] = hooksfile
